@@ -12,6 +12,7 @@
 (*        bit for bit the same                                             *)
 (*   C08  the document written against a rotated / translated frame (or    *)
 (*        shifted in longitude) answers the same at the moved points       *)
+(*   C09  along the cross section the 2D interface answers like the 3D one *)
 (*   C13  every answer is finite (or a refusal), no undefined behaviour    *)
 (*   C14  real threads asking one world get the single-thread answers      *)
 (*   C16  the same file built through the C interface answers the same     *)
@@ -38,14 +39,15 @@ EXTENDS Wb, Json, SequencesExt
 
 CONSTANTS MaxFeatures        \* most features of a document
 
-VARIABLES sph,      \* spherical coordinate system?
+VARIABLES sec,      \* index into Sections: the cross section of the document
+          sph,      \* spherical coordinate system?
           glob,     \* index into Globals
           frame,    \* index into Frames(sph): the frame the moved twin of the document is written against
           feats,    \* the features closed so far (abstract: catalogue indices)
           cur,      \* the feature under construction, or <<>>
           stage,    \* what the feature under construction still lacks
           done
-vars == <<sph, glob, frame, feats, cur, stage, done>>
+vars == <<sec, sph, glob, frame, feats, cur, stage, done>>
 
 (* frames: Cartesian [sph = FALSE, c, s, n (cos = c/n, sin = s/n), tx, ty (km)]; spherical [sph = TRUE, dlon (degrees)] *)
 IdF(s) == IF s THEN [sph |-> TRUE, dlon |-> 0] ELSE [sph |-> FALSE, c |-> 1, s |-> 0, n |-> 1, tx |-> 0, ty |-> 0]
@@ -152,8 +154,13 @@ Globals == << <<>>,
               ("force surface temperature" :> TRUE) @@ ("surface temperature" :> 285) @@ ("gravity model" :> (("model" :> "uniform") @@ ("magnitude" :> Dec(981, -2))))
               @@ ("maximum distance between coordinates" :> 0) >>
 
+(* cross sections <<origin (km), direction d with |d| = d[3]>>: Pythagorean directions, origins and steps chosen so that no
+   probe along a section falls on a lattice-aligned boundary of the catalogues *)
+Sections == << <<<<-347, 203>>, <<1, 0, 1>>>>, <<<<103, -301>>, <<3, 4, 5>>>>, <<<<1507, 1003>>, <<-4, -3, 5>>>>, <<<<1203, -207>>, <<-5, 12, 13>>>> >>
+SecEnd(sc) == <<sc[1][1] + 100 * sc[2][1], sc[1][2] + 100 * sc[2][2]>>
+
 (*************************** the machine ************************************)
-Init == /\ sph \in BOOLEAN /\ glob \in 1..Len(Globals) /\ frame \in 1..3
+Init == /\ sph \in BOOLEAN /\ glob \in 1..Len(Globals) /\ frame \in 1..3 /\ sec \in 1..Len(Sections)
         /\ feats = <<>> /\ cur = <<>> /\ stage = "none" /\ done = FALSE
 
 (* an abstract feature: type, geometry indices <<g, dip point, segment set>>, depth kind, model indices per kind *)
@@ -162,23 +169,23 @@ Start == /\ stage = "none" /\ ~done /\ Len(feats) < MaxFeatures
          /\ \/ \E t \in {"continental plate", "oceanic plate", "mantle layer"}, g \in 1..Len(Polys) : cur' = New(t, g, 0, 0)
             \/ \E t \in {"subducting plate", "fault"}, g \in 1..Len(Trenches), dp \in 1..Len(DipPoints), sg \in 1..Len(SegSets) : cur' = New(t, g, dp, sg)
             \/ \E g \in 1..Len(PlumeGeoms) : cur' = New("plume", g, 0, 0)
-         /\ stage' = "depths" /\ UNCHANGED <<sph, glob, frame, feats, done>>
+         /\ stage' = "depths" /\ UNCHANGED <<sec, sph, glob, frame, feats, done>>
 (* depth range: value-at-points surfaces only for area features (they are built from the polygon) *)
 HasPoints(k) == DepthKinds[k][1] = AtPoints \/ DepthKinds[k][2] = AtPoints
 Depths == /\ stage = "depths"
           /\ \E k \in 1..Len(DepthKinds) : (HasPoints(k) => IsArea(cur.type)) /\ cur' = [cur EXCEPT !.dk = k]
-          /\ stage' = "models" /\ UNCHANGED <<sph, glob, frame, feats, done>>
+          /\ stage' = "models" /\ UNCHANGED <<sec, sph, glob, frame, feats, done>>
 AddModel(key, n) == /\ stage = "models" /\ Len(cur[key]) < 2
                     /\ \E k \in 1..n : cur' = [cur EXCEPT ![key] = Append(@, k)]
-                    /\ UNCHANGED <<sph, glob, frame, feats, stage, done>>
+                    /\ UNCHANGED <<sec, sph, glob, frame, feats, stage, done>>
 AddT == AddModel("tm", Len(TModels(IdF(sph), cur.type)))
 AddC == AddModel("cm", Len(CModels(IdF(sph), cur.type)))
 AddG == AddModel("gm", Len(GModels(IdF(sph), cur.type)))
 AddV == AddModel("vm", Len(VModels(IdF(sph), cur.type)))
 Close == /\ stage = "models"
          /\ feats' = Append(feats, cur) /\ cur' = <<>> /\ stage' = "none"
-         /\ UNCHANGED <<sph, glob, frame, done>>
-Finish == /\ stage = "none" /\ Len(feats) >= 1 /\ ~done /\ done' = TRUE /\ UNCHANGED <<sph, glob, frame, feats, cur, stage>>
+         /\ UNCHANGED <<sec, sph, glob, frame, done>>
+Finish == /\ stage = "none" /\ Len(feats) >= 1 /\ ~done /\ done' = TRUE /\ UNCHANGED <<sec, sph, glob, frame, feats, cur, stage>>
 Next == Start \/ Depths \/ AddT \/ AddC \/ AddG \/ AddV \/ Close \/ Finish
 
 (*************************** rendering against a frame **********************)
@@ -201,6 +208,7 @@ Render(f, a, k) ==
 HM == 1000 * Km
 RE == 6371000
 DocF(f) == World(IF sph THEN Spherical("begin segment") ELSE Cartesian, [k \in 1..Len(feats) |-> Render(f, feats[k], k)]) @@ Globals[glob]
+           @@ ("cross section" :> <<XYg(f, Sections[sec][1]), XYg(f, SecEnd(Sections[sec]))>>)
 Doc == DocF(IdF(sph))
 
 (* a lattice that covers every geometry of the catalogues, plus coordinates of the geometry catalogues themselves *)
@@ -214,7 +222,7 @@ Rows == LET ps == SetToSeq(LatticeKm) IN
 AllProps == <<PT, PC(0), PC(1), PG(0, 2), PC(3), PTag, PV, PC(4), PC(5), PG(2, 1), PC(2)>>
 
 Shape == [k \in 1..Len(feats) |-> feats[k].type]
-Id(kind) == <<"gen", kind, sph, glob, frame, feats>>
+Id(kind) == <<"gen", kind, sph, glob, frame, feats, sec>>
 Labels(kind) == <<"gen", kind, IF sph THEN "spherical" ELSE "cartesian">>
 (* C13: every answer finite (the replay runs under the sanitizers and judges only that) *)
 FiniteB == [id |-> Id("finite"), labels |-> Labels("finite"),
@@ -256,7 +264,22 @@ ThreadJob == LET n == Len(Rows) \div Len(DepthsM) IN
                                           IF sph THEN [sph |-> <<r[1], r[2], r[3]>>, depth |-> r[4]] ELSE [p |-> <<r[1], r[2], r[3]>>, depth |-> r[4]]],
               lists |-> <<AllProps, <<PT>>, <<PTag, PV, PC(1), PG(0, 2)>>>>]
 
-Emit == ~done \/ (PrintT(<<"J", ToJson(ThreadJob)>>) /\ PrintT(<<"B", ToJson(FiniteB)>>) /\ PrintT(<<"B", ToJson(PurityB)>>) /\ PrintT(<<"B", ToJson(CullB)>>)
+(* C09: along the document's cross section the 2D interface answers like the 3D interface at the mapped point
+   (temperature, compositions, grains, tag; the velocity is projected and is CrossSection.tla's subject) *)
+SectionProps == <<PT, PC(0), PC(1), PG(0, 2), PC(3), PTag, PC(4), PC(5), PC(2)>>
+SRow(s, d) ==
+  LET sc == Sections[sec]  o == sc[1]  dd == sc[2] IN
+  IF sph THEN <<RE - d, Rat(o[1] * dd[3] + s * dd[1], 100 * dd[3]), Rat(o[2] * dd[3] + s * dd[2], 100 * dd[3]), d,
+                Mul(RE - d, Cos(Rad(Rat(s, 100)))), Mul(RE - d, Sin(Rad(Rat(s, 100))))>>
+  ELSE <<Rat((o[1] * dd[3] + s * dd[1]) * Km, dd[3]), Rat((o[2] * dd[3] + s * dd[2]) * Km, dd[3]), HM - d, d, s * Km, HM - d>>
+SRows == LET ss == SetToSeq({-200 + 157 * i : i \in 0..13}) IN
+         FlattenSeq([k \in 1..Len(ss) |-> [i \in 1..Len(DepthsM) |-> SRow(ss[k], DepthsM[i])]])
+SectionB == [id |-> Id("section"), labels |-> Labels("section"),
+             steps |-> << [op |-> "create", h |-> 1, wb |-> Doc, expect |-> "any"],
+                          [op |-> "qtable", h |-> 1, dim |-> 3, sph |-> sph, props |-> SectionProps, may_throw |-> TRUE,
+                           also2d |-> [x |-> 4, z |-> 5, rel |-> Dec(1, -9), abs |-> Dec(1, -9)], rows |-> SRows] >>]
+
+Emit == ~done \/ (PrintT(<<"B", ToJson(SectionB)>>) /\ PrintT(<<"J", ToJson(ThreadJob)>>) /\ PrintT(<<"B", ToJson(FiniteB)>>) /\ PrintT(<<"B", ToJson(PurityB)>>) /\ PrintT(<<"B", ToJson(CullB)>>)
                   /\ PrintT(<<"B", ToJson(WrapperB)>>) /\ PrintT(<<"B", ToJson(MotionB)>>))
 
 (* the machine only ever appends well-formed features; the frames are rigid *)
